@@ -185,7 +185,7 @@ SCOPE_TABLE = {
 }
 
 
-@rule("SCOPE", ["C21"], "constructs with a body bind their variables in a scope created for that construct (let binds in the current scope)")
+@rule("SCOPE", ["C21", "C02"], "constructs with a body bind their variables in a scope created for that construct (let binds in the current scope)")
 def scope(ctx, r):
     items = ctx.file_items(RES)
     if items is None:
@@ -207,6 +207,14 @@ def scope(ctx, r):
                     init = x["init"]
                     if init["k"] == "MethodCall" and init["m"] in ("new_scope", "new_closure_scope"):
                         fresh = True
+            # a construct with several sibling bodies (match arms) gets one scope per sibling
+            loops = [x for x in q.walk(arm["body"]) if x["k"] == "For" and any(y is call for y in q.walk(x["body"]))]
+            if want == "fresh" and fresh and loops:
+                inner = loops[-1]
+                per_sibling = any(x["k"] == "Local" and x.get("init") is not None and table in q.pat_bindings(x["pat"]) and x["init"]["k"] == "MethodCall" and x["init"]["m"] in ("new_scope", "new_closure_scope") for x in q.walk(inner["body"]))
+                r.ob(per_sibling, f"resolve.rs:{f['name']}:{v}:scope-shared-between-siblings", RES, call["l"],
+                     f"{f['name']}: the patterns of `{v}` are bound inside `for {q.show_pat(inner['pat'])} in {q.show(inner['e'])}` but the scope they are bound in is created once, outside that loop: a variable bound by an earlier sibling stays visible in the later ones and shadows the enclosing variable of the same name",
+                     sample=f"{v}: one scope per sibling ({q.show(inner['e'])})")
             ok = fresh if want == "fresh" else not fresh
             r.ob(ok, f"resolve.rs:{f['name']}:{v}:binding-scope", RES, call["l"],
                  f"{f['name']}: the pattern of `{v}` is bound in {'a fresh scope' if fresh else 'the enclosing scope'}; it must be bound in {'a scope created for the construct (its variables are visible in the body only)' if want == 'fresh' else 'the current scope'}",
@@ -665,7 +673,56 @@ def epilogue(ctx, r):
                 r.ob(by_type and not by_count, f"translate_bytecode.rs:{f['name']}:epilogue-selected-by-{'argument-count' if not by_type else 'type'}", TB, x["l"],
                      f"{f['name']} selects ReturnVoid with `{cond}`: a void function with arguments (or a non-void one without) leaves the operand stack off by one in its caller",
                      sample=f"{f['name']}: ReturnVoid iff `{cond}`")
+                # where the function is compiled per instance of a generic declaration, the type tested is the instance's
+                if any("FuncDesc" in p.get("ty", "") for p in f["params"] if not p.get("self")):
+                    seen, work, via_instance = set(), list(ids), False
+                    while work:
+                        v = work.pop()
+                        if v in seen:
+                            continue
+                        seen.add(v)
+                        for loc in q.walk(f["body"]):
+                            if loc["k"] == "Local" and loc.get("init") is not None and v in q.pat_bindings(loc["pat"]):
+                                txt = q.show(loc["init"])
+                                if "overload_ty" in txt:
+                                    via_instance = True
+                                work.extend(q.idents_in(loc["init"]))
+                    r.ob(via_instance, f"translate_bytecode.rs:{f['name']}:epilogue-tests-declared-type", TB, x["l"],
+                         f"{f['name']} compiles one body per instantiation but chooses ReturnVoid from the declared result type: `fn get(x: array<T>) -> T` instantiated with T = void ends in `return n` and its caller loses a value from its operand stack",
+                         sample=f"{f['name']}: result type of the instance (overload_ty) decides the epilogue")
     r.count("epilogue emitters", n, 2, TB)
+    # the return context agrees with the epilogue: a body kind that ends in Stop (a thread's top level) must not
+    # give `return` statements a frame to return from, and a kind that ends in Return/ReturnVoid must
+    tb = q.find_fn(items, "translate_func_body_helper", impl_ty="Translator")
+    ast_items = ctx.file_items(TB)
+    fk = q.find_enum(ast_items, "FuncKind")
+    if tb is None or fk is None:
+        r.missing("translate_func_body_helper / enum FuncKind", TB)
+    else:
+        kinds = {v["name"] for v in fk["variants"]}
+
+        def kinds_of(node):
+            """FuncKind variants under which `node` executes (all, unless inside arms of a match on the kind)."""
+            ks = set(kinds)
+            for m in q.walk(tb["body"]):
+                if m["k"] == "Match" and "kind" in q.show(m["e"]):
+                    for a in m["arms"]:
+                        if any(y is node for y in q.walk(a["body"])):
+                            hs = {q.last_seg(h) for h in q.pat_heads(a["pat"])}
+                            ks &= (kinds if "_" in hs else hs & kinds)
+            return ks
+
+        pushing, stop_k, ret_k = set(), set(), set()
+        for x in q.walk(tb["body"]):
+            if x["k"] == "MethodCall" and x["m"] == "push" and q.show(x["recv"]).endswith("return_stack"):
+                pushing |= kinds_of(x)
+            if x["k"] == "Path" and x["p"] == "Instr::Stop":
+                stop_k |= kinds_of(x)
+            if x["k"] == "Path" and x["p"] in ("Instr::Return", "Instr::ReturnVoid"):
+                ret_k |= kinds_of(x)
+        r.ob(not (pushing & stop_k) and ret_k <= pushing and bool(stop_k) and bool(ret_k), "translate_bytecode.rs:translate_func_body_helper:return-context-disagrees-with-epilogue", TB, tb["l"],
+             f"bodies of kind {sorted(stop_k)} end in Stop (they run as a thread's top level, with no call frame) and bodies of kind {sorted(ret_k)} end in Return; the return context is pushed for {sorted(pushing)}. A kind that ends in Stop but has a return context compiles `return` inside it to ReturnVoid, which pops a call frame that does not exist (internal fault); a kind that returns but has none compiles `return` to Stop",
+             sample=f"return context pushed exactly for {sorted(pushing)}; Stop for {sorted(stop_k)}")
     # every caller of wrapper_footer passes a void test derived from the callee's return type
     foot = q.find_fn(items, "wrapper_footer", impl_ty="Translator")
     if foot is None:
